@@ -375,7 +375,14 @@ def run(tier, seed, replay_obj=None):
     return conclude(ctx, prop_fail, corr_details)
 
 
-def conclude(ctx, prop_fail, corr_details):
+def conclude(ctx, prop_fail, corr_details, is_replay=False):
+    if is_replay:
+        # a replay does not overwrite the evidence of the last full run
+        for o in ctx.obligations:
+            if not o[1]:
+                print("[replay] FAILED: %s %s" % (o[0], o[2][:1500]))
+        print("[replay] %s" % ("the failure reproduces" if ctx.broken else "passes: the failure does not reproduce"))
+        return 1 if ctx.broken else 0
     if ctx.broken:
         if prop_fail:
             for pf in prop_fail[:3]:
@@ -428,7 +435,7 @@ def run_replay(ctx, avh, obj):
         rc, out, _ = lib.harness_run(avh, ["merge", "c11", DUMP, p])
         bad = [l for l in out.split("\n") if l.startswith("C11FAIL") and "InvalidFileMerge" not in l]
         ctx.oblige("replay:c11-load", not bad, "\n".join(bad[:4]))
-    return conclude(ctx, prop_fail, [])
+    return conclude(ctx, prop_fail, [], is_replay=True)
 
 
 def replay(path):
